@@ -1,7 +1,8 @@
 """C16 — loads-analysis extrema, envelopes and uncertainty factors (DESIGN.md section 6/C16).
 
 Tie: correspondence between the Lean models (lean/PyYetiVerif/Model/Extrema.lean, ExtremaPsd.lean, ExtremaMerge.lean,
-ApplyUf.lean, ApplyUfFull.lean, run through Drivers/C16.lean) and the real code imported from the working tree:
+ExtremaTree.lean, ExtremaHeap.lean, ExtremaLabels.lean, ExtremaSplit.lean, ApplyUf.lean, ApplyUfFull.lean, ApplyUfDef.lean,
+run through Drivers/C16.lean) and the real code imported from the working tree:
 
   maxmin        cla.maxmin on random matrices (ties, NaN, all-NaN rows, bad x length)      exact
   ext2 / ext1   cla.extrema call histories, two- and one-column, every prefix compared,
@@ -48,6 +49,18 @@ ApplyUf.lean, ApplyUfFull.lean, run through Drivers/C16.lean) and the real code 
                 modes and non-unit factors: the unit-force responses come from the Rat model of
                 apply_uf                                                             numeric + exact
 
+  labform       DR_Results.form_extreme over events whose categories list DIFFERENT ROWS: recovery events
+                (time_data_recovery, 1-3 load cases, so .mx / .mn exist), add_maxmin events and groups (lower-level
+                envelopes), 2-4 members, label lists identical / permuted / subset / superset / disjoint / partly
+                overlapping / with a repeated label (same list: accepted, other list: ValueError), abscissae given by all /
+                none / some members, a second category carried by some events only, case_order, doappend 0-3; every
+                `_calc_extreme` level against Model/ExtremaLabels.lean on whole tables: row labels and their order,
+                ext, ext_x (or its absence), maxcase, mincase, mx, mn, mx_x, mn_x, the exception kind                exact
+  mergelists    locate.merge_lists on random lists (with and without repeated items)                         exact
+  split         DR_Results.split on recovery events (case numbers in any order; a column never filled: TypeError)
+                against Model/ExtremaSplit.lean on the implementation's own per-case columns                  exact
+  ufdef         DR_Def.add(uf_reds=...) with / without defaults['uf_reds'], None entries anywhere                exact
+
 Exactness: everything the extrema code does to a value is compare / negate / move, so every double
 is sent to the Int model as its order-preserving, odd-symmetric integer key (IEEE bit pattern with
 the sign folded); no rounding is involved.  Diagonal apply_uf runs at Rat in the model and is compared with
@@ -60,7 +73,12 @@ envelope of parts, idempotence of form_extreme, calc_ext agreement, the PSD sum 
 trapezoid rms / linearity / force-order independence, merge refusals, the documented apply_uf formulas
 (also for full matrices, via numpy.linalg.solve) and cache transparency, nested structures (parts
 bit-identical, every group's envelope, no stale 'extreme', idempotence, delete-then-form, traversal order), the
-documented vibration response spectrum of the response PSD and its envelope, mean + k sigma with ddof = 1.
+documented vibration response spectrum of the response PSD and its envelope, mean + k sigma with ddof = 1;
+form_extreme BY ROW LABEL (for every label the envelope over exactly the members that list it, governing label and
+abscissa of an attaining member, per-case columns NaN where a member lacks the row, row order = the documented merge,
+values independent of the event order, parts untouched, ValueError exactly for a repeated label against another
+list), merge_lists' documented equations, split() giving every case its own columns under its own label, and the
+documented reset of None entries of uf_reds.
 """
 import copy
 import itertools
@@ -76,7 +94,8 @@ from runner import Infra
 ID = "C16"
 LEAN_MODULES = ["PyYetiVerif.Props.C16", "PyYetiVerif.Props.C16Full", "PyYetiVerif.Props.C16FullRoutine", "PyYetiVerif.Props.C16Pipe",
                 "PyYetiVerif.Props.C16Psd", "PyYetiVerif.Props.C16FullRf", "PyYetiVerif.Props.C16Stat", "PyYetiVerif.Props.C16Tree",
-                "PyYetiVerif.Props.C16Heap", "PyYetiVerif.Audit.C16"]
+                "PyYetiVerif.Props.C16Heap", "PyYetiVerif.Props.C16Labels", "PyYetiVerif.Props.C16LabelsNest", "PyYetiVerif.Props.C16Split",
+                "PyYetiVerif.Audit.C16"]
 AUDIT_FILE = "PyYetiVerif/Audit/C16.lean"
 THEOREMS = [
     "PyYetiVerif.C16." + n
@@ -96,13 +115,20 @@ THEOREMS = [
         "stat_ext_def stat_ext_order_independent stat_ext_monotone_in_k "
         "form_extreme_idempotent form_extreme_keeps_parts delete_extreme_spec nested_traversal_order "
         "form_extreme_flat_is_envelope form_extreme_does_not_modify_parts aliased_first_call_modifies_part "
-        "psd_srs_env_is_max_over_cases psd_srs_case_scaling heap_run_is_run2 nested_envelope_is_recursive_extrema"
+        "psd_srs_env_is_max_over_cases psd_srs_case_scaling heap_run_is_run2 nested_envelope_is_recursive_extrema "
+        "merge_lists_spec form_extreme_by_label form_extreme_row_is_first_best form_extreme_label_order "
+        "expand_missing_rows_neutral form_extreme_event_order_values_independent form_extreme_refuses_repeated_labels "
+        "form_extreme_accepts_differing_rows abscissa_of_governing_event_mixed cases_label_matches_column "
+        "split_pairs_cases_with_columns uf_reds_none_entries_documented "
+        "form_extreme_nested_by_label_values"
     ).split()
 ]
 TRUSTED = [
     "correspondence harness harness/props/c16.py (exact on order keys of doubles; 1e-9 relative for apply_uf; 1e-12 for PSD numerics and calc_stat_ext)",
     "numpy vectorisation over rows: the model is per row, every row of the implementation's tables is compared",
     "numpy kernels nanargmax/nanargmin/fmax/abs/max/argmax/mean/std and fancy indexing behave as modelled (re-measured by the streams)",
+    "list.index / list.insert / slicing (merge_lists) and numpy's `new[pv] = old`, `arr[:, j] = col`, boolean .nonzero() "
+    "behave as Model/ExtremaLabels.lean has them (re-measured by the mergelists / labform streams)",
     "pyyeti.srs.srs / srs_frf produce the per-case spectra; only their storage and envelope are in scope; srs.vrs is C03's "
     "model Srs.vrsOne (imported read-only), compared at 1e-9 with the oscillator frequencies inside the analysis grid",
     "Python object identity is modelled by Model/ExtremaHeap.lean (arrays / lists = cells of a store); that numpy's .copy(), "
@@ -123,13 +149,18 @@ RULE = (
     "either order / boolean mask), 1-4 factor tuples, vector and full (symmetric or not, C / Fortran ordered) matrices; "
     "nested results of depth 1-3 with 1-3 members per group and stale 'extreme' entries; extrema histories with all inputs "
     "created beforehand; PSD events with SRS (1-3 oscillator frequencies on the grid, Q 10 / 25, eqsine, resp_time) and "
-    "with solvepsd(use_apply_uf=True) (modal vectors, 0-2 rb, 0-2 rf modes, factors from {0.5, 1, 1.25, 1.5, 2}). One case = one history / event / structure compared on all rows "
+    "with solvepsd(use_apply_uf=True) (modal vectors, 0-2 rb, 0-2 rf modes, factors from {0.5, 1, 1.25, 1.5, 2}); "
+    "form_extreme over 2-4 members (recovery events with 1-3 load cases, add_maxmin events, groups) whose categories list "
+    "1-6 row labels drawn from a pool of 8 in the patterns identical / permuted / subset / disjoint / overlap / random / "
+    "repeated label (36 fixed pattern x shape combinations first, then random ones); merge_lists on lists of 0-5 items; "
+    "split() on recovery events; DR_Def.add with defaults / uf_reds entries from {0, 0.5, 1, 1.25, 1.5, 2, None}. One case = one history / event / structure compared on all rows "
     "and all prefixes; non-trivial = at least two calls and at least one replacement after the first call (extrema), "
     "at least one non-rigid mode (apply_uf), an accepted event (recovery streams); distinct by the canonical input."
 )
 ASSUMPTIONS = [
-    "within one extrema history mm.ext_x is either always given or never (DR_Results always gives it)",
-    "form_extreme parts share the same row labels (the label-merging expansion path is not exercised)",
+    "form_extreme over events that list different rows: the events carry no SRS (srs.ext is enveloped by position, "
+    "the label merge does not touch it); a table without ext_x is sent to the model with NaN abscissae (EvOk.nox: the "
+    "code never reads them)",
     "apply_uf: stiffness of every non-rigid-body mode is non-zero / k[ee] and k[rf, rf] are invertible; all calls sharing a "
     "save dict use the same sol, m, b, k, nrb, rfmodes; rfmodes index modes at or above nrb",
     "PSD recovery: every case has at least one non-zero force PSD (with all forces zero and allow_force_trimming the code "
@@ -146,13 +177,17 @@ PARTIAL = (
     "entering as matrices with k[e,e] * KeeInv = 1, k[r,r] * KrrInv = 1 (that lu_factor / lu_solve deliver such matrices is "
     "re-measured by the `gauss` variant, not proved); rfmodes below nrb or with repeated indices are outside the theorems "
     "(and outside what the routine documents); the store model of cla.extrema (Model/ExtremaHeap.lean) covers the two-column "
-    "branch (what form_extreme / merge / the recovery routines use); its agreement with the value model (heap_run_is_run2) "
-    "is proved for histories whose abscissae are always or never given, the mixed case is tied by the heap stream only; "
+    "branch (what form_extreme / merge / the recovery routines use); "
     "init_extreme_cat's copies (srs.ext deepcopy, new NaN arrays) are listed in the model header and "
     "covered by the oracle rule only; calc_stat_ext is proved per row over a field with an abstract square root; the SRS of "
     "the response PSD uses C03's vrs model with the oscillator frequencies on the analysis grid (no interpolation); "
-    "solvepsd(use_apply_uf=True) is driven with vector modal data only; DR_Results.split / strip_hists / set_dr_order / "
-    "rptext-style reports are text and are not modelled"
+    "solvepsd(use_apply_uf=True) is driven with vector modal data only; strip_hists / set_dr_order / "
+    "rptext-style reports are text and are not modelled; across NESTED levels the by-label "
+    "envelope is tied level by level (every _calc_extreme call is compared with formCat on the implementation's own lower "
+    "envelopes) and the composition is proved for the VALUES (form_extreme_nested_by_label_values), labels and abscissae "
+    "at ties across levels only for equal rows (nested_envelope_is_recursive_extrema + envelope_of_parts); the SRS "
+    "envelope of events that list different rows is outside the model; split() is modelled for ext / ext_x / cases "
+    "(hist / psd / srs slabs are covered by the oracle rule only)"
 )
 MANIFEST = {
     "level_text": "proof",
@@ -165,12 +200,27 @@ MANIFEST = {
                   "nested results (delete_extreme, form_extreme idempotent and restoring after delete_extreme, parts kept, the "
                   "nested envelope = extrema applied recursively, traversal order of all_categories / all_base_events) and a "
                   "store model of cla.extrema with the frame theorem that forming an envelope never writes into its parts and "
-                  "the refinement theorem that it computes the value model's running extreme; tie by exact / numeric correspondence on the real "
-                  "code; measured only: that scipy's LU inverts the partitions, the vrs kernel (C03's model at 1e-9)",
+                  "the refinement theorem that it computes the value model's running extreme; form_extreme over events that list "
+                  "different rows (merge_lists' documented equations; for every row label the envelope over exactly the events "
+                  "that list it with label and abscissa of the first attaining event, per-case columns NaN where an event lacks "
+                  "the row, row order = iterated merge, values independent of the event order and the same through nested levels, "
+                  "missing rows never win, repeated labels refused); the case-label list names the per-case columns whatever the order of the calls and split() "
+                  "pairs each label with its own column; tie by exact / numeric correspondence on the real "
+                  "code; measured only: that scipy's LU inverts the partitions, the vrs kernel (C03's model at 1e-9); the "
+                  "findings F56-F58 of this check (None entries of uf_reds, abscissa of another event, KeyError for add_maxmin "
+                  "events that list other rows) are repaired in /repo, model and theorems follow the repaired code (by-label "
+                  "envelope and store/value agreement for any mix of events with and without abscissae, the documented uf_reds "
+                  "defaults in full) and the oracle rules remain as regression guards",
     "technique": "Lean 4 proof + differential correspondence + model-free oracle",
 }
 
 NAN = float("nan")
+
+# families of findings of this check that were repaired in /repo (known_findings.json: fixed); the oracle rules stay as
+# regression guards and report a revert of the repair under the same family
+FIXED_F56 = "drdef-add-uf-reds-none-entry-ignores-defaults"  # fix: commit 8b1ec50
+FIXED_F57 = "form-extreme-abscissa-of-another-event-when-governing-event-has-none"  # fix: commit 19ddbb5
+FIXED_F58 = "form-extreme-differing-rows-add-maxmin-event-keyerror"  # fix: commit 40cd789
 
 
 # ---------------------------------------------------------------------------------------
@@ -251,6 +301,10 @@ def gen_hist(rng, cols):
             mincase = ["m%d.r%d" % (c, i) for i in range(r)]
         calls.append({"ext": ext, "ext_x": ext_x, "maxcase": maxcase, "mincase": mincase,
                       "casenum": None if mode == "none" else js[c]})
+    if n > 1 and rng.random() < 0.2:
+        # abscissae given by some calls only (since fix 19ddbb5 a call without contributes NaN abscissae)
+        for c in calls:
+            c["ext_x"] = [[float(rng.randint(0, 9)) for _ in range(cols)] for _ in range(r)] if rng.random() < 0.6 else None
     return {"kind": "ext%d" % cols, "rows": r, "n": n, "calls": calls}
 
 
@@ -323,14 +377,18 @@ def hist_impl_replies(h):
     except Exception as e:  # the model never refuses a well-formed history
         return ["exception:" + type(e).__name__] * len(hist_requests(h))
     hasx = h["calls"][0]["ext_x"] is not None
+    mixed = spec_mixedx(h)
     out = []
     for ext, ext_x, mxc, mnc in snaps:
         for i in range(h["rows"]):
-            if hasx != (ext_x is not None):
+            if not mixed and hasx != (ext_x is not None):
                 out.append("ext_x-presence-differs")
                 continue
-            x0 = ftok(ext_x[i, 0]) if hasx else "nan"
-            x1 = ftok(ext_x[i, 1]) if hasx else "nan"
+            if ext_x is not None and ext_x.shape != ext.shape:
+                out.append("ext_x-shape-%s-differs-from-ext-%s" % (ext_x.shape, ext.shape))
+                continue
+            x0 = ftok(ext_x[i, 0]) if ext_x is not None else "nan"
+            x1 = ftok(ext_x[i, 1]) if ext_x is not None else "nan"
             out.append("%s %s %s %s %s %s" % (ftok(ext[i, 0]), x0, mxc[i], ftok(ext[i, 1]), x1, mnc[i]))
     if h["calls"][0]["casenum"] is not None:
         for i in range(h["rows"]):
@@ -1678,11 +1736,12 @@ def gen_heap_hist(rng):
     h = gen_hist(rng, 2)
     for c in h["calls"]:
         c["casenum"] = None
-    if h["rows"] == 1 and rng.random() < 0.25:
-        # abscissae given by some calls only (the whole-array copy / NaN branches of _put_time; one row, because in
-        # these branches a copy triggered by one row changes the other rows as well)
+    if rng.random() < 0.25:
+        # abscissae given by some calls only (the new-NaN-array / NaN branches of _put_time)
         for c in h["calls"]:
-            c["ext_x"] = [[float(rng.randint(0, 9)), float(rng.randint(0, 9))]] if rng.random() < 0.6 else None
+            c["ext_x"] = [[float(rng.randint(0, 9)), float(rng.randint(0, 9))] for _ in range(h["rows"])] \
+                if rng.random() < 0.6 else None
+    if spec_mixedx(h):
         h["mixedx"] = True
     return h
 
@@ -1783,6 +1842,488 @@ def permuted_event(spec, perm):
         out["resp"] = [spec["resp"][k] for k in perm]
     out["perm"] = list(perm)
     return out
+
+
+# ---------------------------------------------------------------------------------------
+# form_extreme over events whose categories list different rows (labform stream, Model/ExtremaLabels.lean)
+
+_LABPOOL = ["Fx", "Fy", "Fz", "Mx", "My", "Mz", "Tq", "Ax"]
+_LAB_PATTERNS = ["identical", "permuted", "subset", "disjoint", "overlap", "random", "dup-identical", "dup-differ"]
+
+
+def _lab_lists(rng, pattern, ne):
+    """label lists of `ne` events following an overlap pattern"""
+    nm = rng.randint(max(2, ne if pattern == "disjoint" else 2), 6)
+    master = rng.sample(_LABPOOL, nm)
+    if pattern == "identical":
+        return [list(master) for _ in range(ne)]
+    if pattern == "permuted":
+        out = [list(master)]
+        for _ in range(ne - 1):
+            p = list(master)
+            while p == master:
+                rng.shuffle(p)
+            out.append(p)
+        return out
+    if pattern == "subset":
+        out = []
+        for _ in range(ne):
+            k = rng.randint(1, nm)
+            sub = rng.sample(master, k)
+            if rng.random() < 0.5:
+                sub = [l for l in master if l in sub]  # an ordered subsequence
+            out.append(sub)
+        out[rng.randrange(ne)] = list(master) if rng.random() < 0.5 else rng.sample(master, nm)
+        return out
+    if pattern == "disjoint":
+        pool = list(master)
+        rng.shuffle(pool)
+        cuts = sorted(rng.sample(range(1, nm), ne - 1))
+        return [pool[a:b] for a, b in zip([0] + cuts, cuts + [nm])]
+    if pattern == "overlap":
+        while True:
+            out = [rng.sample(master, rng.randint(1, nm)) for _ in range(ne)]
+            a, b = set(out[0]), set(out[1])
+            if (a & b) and (a - b) and (b - a):
+                return out
+            nm = max(nm, 3)
+            if len(master) < 3:
+                master = rng.sample(_LABPOOL, 3)
+                nm = 3
+    if pattern == "random":
+        return [rng.sample(master, rng.randint(1, nm)) for _ in range(ne)]
+    if pattern == "dup-identical":
+        m = list(master)
+        m.insert(rng.randrange(len(m) + 1), rng.choice(master))
+        return [list(m) for _ in range(ne)]
+    # dup-differ: one event repeats a label and the lists are not all the same
+    out = [rng.sample(master, rng.randint(1, nm)) for _ in range(ne)]
+    k = rng.randrange(ne)
+    out[k] = out[k] + [out[k][0]]
+    if all(o == out[0] for o in out):
+        out[(k + 1) % ne] = out[(k + 1) % ne] + ["Zz"]
+    return out
+
+
+def _lab_base(rng, name, labels, labels2, kind, style):
+    """one base event: `time` (time_data_recovery, 1-3 load cases) or `addmm` (add_maxmin)"""
+    r = len(labels)
+    if kind == "time":
+        nc = rng.randint(1, 3)
+        nt = rng.randint(2, 4)
+        rows = max(r, len(labels2) if labels2 else 0)
+        resp = [[_values(rng, nt, style, 0.0) for _ in range(rows)] for _ in range(nc)]
+        return {"type": "time", "name": name, "labels": labels, "labels2": labels2, "resp": resp, "nt": nt}
+    hasx = rng.random() < 0.5
+    nanp = rng.choice([0.0, 0.2])
+    k = rng.random()
+    maxcase = name + "-mx" if k < 0.5 else ["%s-mx%d" % (name, i) for i in range(r)]
+    k = rng.random()
+    mincase = None if k < 0.4 else (name + "-mn" if k < 0.7 else ["%s-mn%d" % (name, i) for i in range(r)])
+    return {"type": "addmm", "name": name, "labels": labels, "labels2": None,
+            "mxmn": [_values(rng, 2, style, nanp) for _ in range(r)], "maxcase": maxcase, "mincase": mincase,
+            "xv": [[float(rng.randint(0, 9)) for _ in range(2)] for _ in range(r)] if hasx else None}
+
+
+def gen_labform(rng, pattern=None, shape=None):
+    pattern = pattern or rng.choice(_LAB_PATTERNS)
+    shape = shape or rng.choice(["flat", "flat", "nested", "mixedx"])
+    style = rng.choice(["small", "pm", "half"])
+    cnt = [0]
+
+    def name():
+        cnt[0] += 1
+        return "E%d" % cnt[0]
+
+    if shape == "mixedx":
+        # a group of add_maxmin events WITHOUT abscissae (same rows): its envelope has per-case columns and no ext_x;
+        # next to it recovery events (abscissae given) that list other rows -- in either order
+        ne = rng.randint(2, 3)
+        lists = _lab_lists(rng, pattern if not pattern.startswith("dup") else "permuted", ne)
+        g = {"type": "group", "name": "G1", "kids": []}
+        for _ in range(rng.randint(1, 2)):
+            b = _lab_base(rng, name(), list(lists[0]), None, "addmm", style)
+            b["xv"] = None
+            g["kids"].append(b)
+        members = [g] + [_lab_base(rng, name(), lists[k], None, "time", style) for k in range(1, ne)]
+        if rng.random() < 0.5:
+            rng.shuffle(members)
+        return {"kind": "labform", "pattern": pattern, "shape": shape, "members": members, "d": rng.randint(0, 3),
+                "case_order": None, "two": False}
+    ne = rng.randint(2, 4)
+    lists = _lab_lists(rng, pattern, ne)
+    two = rng.random() < 0.3
+    lists2 = _lab_lists(rng, rng.choice(["identical", "permuted", "subset", "overlap"]), ne) if two else None
+    addmm = rng.random() < 0.3
+    bases = []
+    for k in range(ne):
+        kind = "addmm" if (addmm and rng.random() < 0.5) else "time"
+        l2 = None
+        if two and kind == "time" and (k == 0 or rng.random() < 0.7):
+            l2 = lists2[k]
+        bases.append(_lab_base(rng, name(), lists[k], l2, kind, style))
+    if shape == "flat":
+        members = bases
+    else:
+        ng = rng.randint(1, 2)
+        cuts = sorted(rng.sample(range(1, ne + 1), min(ng, ne)))
+        members, prev = [], 0
+        for g, c in enumerate(cuts):
+            if c - prev >= 1 and rng.random() < 0.8:
+                members.append({"type": "group", "name": "G%d" % (g + 1), "kids": bases[prev:c]})
+            else:
+                members += bases[prev:c]
+            prev = c
+        members += bases[prev:]
+        if not any(m["type"] == "group" for m in members):
+            members = [{"type": "group", "name": "G1", "kids": members[:1]}] + members[1:]
+    co = None
+    if rng.random() < 0.25 and len(members) >= 2:
+        co = [m["name"] for m in members]
+        rng.shuffle(co)
+        if len(co) > 2 and rng.random() < 0.4:
+            co = co[:-1]
+    return {"kind": "labform", "pattern": pattern, "shape": shape, "members": members, "d": rng.randint(0, 3),
+            "case_order": co, "two": two}
+
+
+def _lab_build_base(b):
+    from pyyeti import cla
+
+    uf = (1, 1, 1, 1)
+    drdefs = cla.DR_Def(dict(se=0, uf_reds=uf))
+    if b["type"] == "time":
+        rows = len(b["resp"][0])
+        T1 = np.eye(rows)[:len(b["labels"])]
+        drdefs.add(name="cat", desc="toy category", labels=list(b["labels"]), drms={"T1": T1},
+                   drfunc="Vars[se]['T1'] @ sol.d")
+        if b["labels2"]:
+            T2 = -np.eye(rows)[:len(b["labels2"])][:, ::-1]
+            drdefs.add(name="cat2", desc="toy category 2", labels=list(b["labels2"]), drms={"T2": T2},
+                       drfunc="Vars[se]['T2'] @ sol.d")
+        DR = cla.DR_Event()
+        DR.add(None, drdefs)
+        res = DR.prepare_results("mission", b["name"])
+        t = np.arange(b["nt"]) * 0.01
+        n = len(b["resp"])
+        for j in range(n):
+            sol = {uf: SimpleNamespace(d=arr(b["resp"][j]), t=t, h=0.01)}
+            res.time_data_recovery(sol, None, "%s-%d" % (b["name"], j), DR, n, j)
+        return res
+    drdefs.add(name="cat", desc="toy category", labels=list(b["labels"]), drfunc="no-func")
+    DR = cla.DR_Event()
+    DR.add(None, drdefs)
+    res = DR.prepare_results("mission", b["name"])
+    res.add_maxmin("cat", arr(b["mxmn"]), copy.deepcopy(b["maxcase"]), copy.deepcopy(b["mincase"]),
+                   None if b["xv"] is None else arr(b["xv"]), "time")
+    return res
+
+
+def build_labform(spec, order=None):
+    """the nested DR_Results of the spec and the outcome of form_extreme: (top, exception name or None)"""
+    from pyyeti import cla
+
+    def mk(node):
+        if node["type"] != "group":
+            return _lab_build_base(node)
+        g = cla.DR_Results()
+        for kid in node["kids"]:
+            g[kid["name"]] = mk(kid)
+        return g
+
+    with warnings.catch_warnings():
+        warnings.simplefilter("ignore")
+        top = cla.DR_Results()
+        members = spec["members"] if order is None else [spec["members"][i] for i in order]
+        for m in members:
+            top[m["name"]] = mk(m)
+        co = spec["case_order"] if order is None else None
+        try:
+            top.form_extreme("Envelope", case_order=co, doappend=spec["d"])
+        except (ValueError, KeyError) as e:
+            return top, type(e).__name__
+    return top, None
+
+
+def _is_group(res):
+    return len(res) > 0 and not isinstance(next(iter(res.values())), SimpleNamespace)
+
+
+def lab_levels(top, case_order):
+    """the `_calc_extreme` calls of form_extreme in the order they are made: (path, dct, cases)"""
+    out = []
+
+    def walk(dct, path, co):
+        for k, v in dct.items():
+            if k != "extreme" and _is_group(v):
+                walk(v, path + (k,), None)
+        out.append((path, dct, [k for k in dct if k != "extreme"] if co is None else [str(c) for c in co]))
+
+    walk(top, (), case_order)
+    return out
+
+
+def _lab_parts(dct, cases, drm):
+    """(j, case, use_ext, category) for the members that carry `drm`, as `_calc_extreme` reads them"""
+    parts = []
+    for j, case in enumerate(cases):
+        m = dct[case]
+        use_ext = "extreme" in m
+        cur = m["extreme"] if use_ext else m
+        if drm in cur:
+            parts.append((j, case, use_ext, cur[drm]))
+    return parts
+
+
+def _lab_cat_token(j, case, use_ext, c):
+    r = len(c.drminfo.labels)
+    rows = " ".join("%s %s %s %s %s %s" % (ftok(c.ext[i, 0]), _px(c, i, 0), c.maxcase[i], ftok(c.ext[i, 1]), _px(c, i, 1),
+                                           c.mincase[i]) for i in range(r))
+    return "%d %s %d %d %d %d %s %s" % (j, case, 1 if use_ext else 0, 0 if c.ext_x is None else 1,
+                                         1 if hasattr(c, "mx") else 0, r, " ".join(c.drminfo.labels), rows)
+
+
+def _lab_acc_reply(e):
+    rows = []
+    for i in range(len(e.drminfo.labels)):
+        rows.append("%s %s %s %s %s %s , %s , %s , %s , %s" % (
+            ftok(e.ext[i, 0]), _px(e, i, 0), e.maxcase[i], ftok(e.ext[i, 1]), _px(e, i, 1), e.mincase[i],
+            " ".join(ftok(v) for v in e.mx[i]), " ".join(ftok(v) for v in e.mn[i]),
+            " ".join(ftok(v) for v in e.mx_x[i]), " ".join(ftok(v) for v in e.mn_x[i])))
+    return " ".join(e.drminfo.labels) + " | " + ("0" if e.ext_x is None else "1") + " | " + " | ".join(rows)
+
+
+def _lab_step_kinds(parts, as_coded=True):
+    """what `_check_row_compatibility` sees at every step: the overlap pattern of (labels so far, next labels)"""
+    kinds = []
+    acc = None
+    for _, _, _, c in parts:
+        l2 = list(c.drminfo.labels)
+        if acc is None:
+            acc = l2
+            continue
+        if acc == l2:
+            kinds.append("identical-repeated" if len(set(l2)) != len(l2) else "identical")
+            continue
+        if len(set(acc)) != len(acc) or len(set(l2)) != len(l2):
+            kinds.append("repeated-refused")
+            break
+        a, b = set(acc), set(l2)
+        if a == b:
+            kinds.append("permuted")
+        elif not (a & b):
+            kinds.append("disjoint")
+        elif b < a:
+            kinds.append("subset")
+        elif a < b:
+            kinds.append("superset-same-order" if [x for x in l2 if x in a] == acc else "superset")
+        else:
+            kinds.append("overlap")
+        if not hasattr(c, "mx"):
+            kinds.append("add-maxmin-event-expanded")  # no per-case members: accepted since fix 40cd789 (F58)
+        acc = _ref_merge(acc, l2)
+    return kinds
+
+
+def _ref_merge(l1, l2):
+    """the documented merge: l1 keeps its order; a new item of l2 goes in front of the next item of l2 that l1 has"""
+    out = list(l1)
+    pend = []
+    for e in l2:
+        if e in out:
+            i = out.index(e)
+            out[i:i] = pend
+            pend = []
+        else:
+            pend.append(e)
+    return out + pend
+
+
+def labform_run(spec):
+    """requests, expected replies and branch names for one spec"""
+    top, exc = build_labform(spec)
+    reqs, want, branches = [], [], set()
+    levels = lab_levels(top, spec["case_order"])
+    raised_seen = False
+    for path, dct, cases in levels:
+        formed = "extreme" in dct
+        if not formed and raised_seen:
+            break  # levels after the one that raised are never reached
+        cats = []
+        for case in cases:
+            m = dct[case]
+            cur = m["extreme"] if "extreme" in m else m
+            for drm in cur:
+                if drm not in cats:
+                    cats.append(drm)
+        first_err = None  # (j, position of the category in that member) of the first failing step, by the implementation's loop order
+        for drm in cats:
+            parts = _lab_parts(dct, cases, drm)
+            reqs.append("labform %d %d ; " % (spec["d"], len(cases)) + " ; ".join(_lab_cat_token(*p) for p in parts))
+            kinds = _lab_step_kinds(parts)
+            for k in kinds:
+                branches.add("labels-" + k)
+            if len({c.ext_x is None for _, _, _, c in parts}) > 1:
+                branches.add("labels-abscissa-some-events")
+                if any(k not in ("identical", "identical-repeated") for k in kinds):
+                    branches.add("labels-abscissa-some-events-with-merge")
+            if any(u for _, _, u, _ in parts):
+                branches.add("labels-lower-level-envelope")
+            if len(parts) < len(cases):
+                branches.add("labels-category-missing-in-some-event")
+            if formed:
+                try:
+                    want.append(("acc", _lab_acc_reply(dct["extreme"][drm])))
+                except (IndexError, ValueError, TypeError, AttributeError, KeyError) as e:
+                    want.append(("acc", "malformed-table:%s:%s" % (type(e).__name__, str(e)[:120])))
+            else:
+                want.append(("err", exc, drm, dct, cases))
+        if formed and list(dct["extreme"].keys()) != cats:
+            want.append(("cats", list(dct["extreme"].keys()), cats))
+            reqs.append("lbl x y 0 0")
+        if not formed:
+            raised_seen = True
+    if exc is not None and not raised_seen:
+        want.append(("stray", exc))
+        reqs.append("lbl x y 0 0")
+    if spec["case_order"] is not None:
+        branches.add("labels-case-order")
+    return reqs, want, branches, top, exc
+
+
+def labform_compare(spec, reqs, want, got):
+    """first difference between the model's replies and the implementation, or None"""
+    errs = []  # model errors of the level that raised: (j, category position, kind)
+    exc = None
+    for rq, w, g in zip(reqs, want, got):
+        if w[0] == "acc":
+            if g != w[1]:
+                return {"request": rq[:400], "impl": w[1], "model": g}
+        elif w[0] == "cats":
+            return {"what": "categories of the new 'extreme'", "impl": w[1], "model": w[2]}
+        elif w[0] == "stray":
+            return {"what": "form_extreme raised although every level was formed", "impl": w[1], "model": "no exception"}
+        else:
+            _, exc, drm, dct, cases = w
+            t = g.split()
+            if t and t[0] == "value-error":
+                j = int(t[1])
+                m = dct[cases[j]]
+                cur = m["extreme"] if "extreme" in m else m
+                errs.append((j, list(cur.keys()).index(drm), t[0]))
+    if exc is not None:
+        model = min(errs)[2] if errs else "no exception"
+        impl = {"ValueError": "value-error"}.get(exc, exc)
+        if model != impl:
+            return {"what": "exception raised by form_extreme", "impl": exc, "model": model}
+    return None
+
+
+_LAB_FIXED = [
+    # (pattern, shape) pairs every run starts with, so that each overlap pattern is met whatever the seed
+    ("identical", "flat"), ("permuted", "flat"), ("subset", "flat"), ("disjoint", "flat"), ("overlap", "flat"),
+    ("dup-identical", "flat"), ("dup-differ", "flat"), ("permuted", "nested"), ("overlap", "nested"),
+    ("permuted", "mixedx"), ("overlap", "mixedx"), ("subset", "mixedx"),
+]
+
+
+def lab_specs(rng, n):
+    out = []
+    for rep in range(3):
+        for pat, shape in _LAB_FIXED:
+            out.append(gen_labform(rng, pat, shape))
+    # the demonstration of the seeded change C16r3/1 in small: the same rows in another order, a third event with some
+    out.append({"kind": "labform", "pattern": "permuted", "shape": "flat", "d": 2, "case_order": None, "two": False, "members": [
+        {"type": "time", "name": "Liftoff", "labels": ["Fx", "Fy", "Mz"], "labels2": None, "nt": 3,
+         "resp": [[[1.0, 2.0, 0.0], [3.0, -4.0, 0.0], [5.0, 6.0, 0.0]]]},
+        {"type": "time", "name": "MaxQ", "labels": ["Mz", "Fx", "Fy"], "labels2": None, "nt": 3,
+         "resp": [[[10.0, 0.0, 0.0], [-1.0, 0.0, 0.0], [7.0, -9.0, 0.0]]]},
+        {"type": "time", "name": "SECO", "labels": ["Fy", "Fx"], "labels2": None, "nt": 3,
+         "resp": [[[0.0, 8.0, -20.0], [4.0, 0.0, 1.0]]]}]})
+    out += [gen_labform(rng) for _ in range(n)]
+    return out
+
+
+
+# ---------------------------------------------------------------------------------------
+# DR_Results.split (split stream, Model/ExtremaSplit.lean) and DR_Def.add's uf_reds defaults (ufdef stream)
+
+
+def split_io(spec, res, short):
+    """requests (one per row, from the implementation's own per-case columns and label list) and the comparison data"""
+    cat = res["cat"]
+    n = len(cat.cases)
+    reqs = []
+    for i in range(spec["rows"]):
+        reqs.append("split ; " + " ; ".join("%s %s %s %s %s" % (
+            cat.cases[j] if isinstance(cat.cases[j], str) else "-", ftok(cat.mx[i, j]), ftok(cat.mn[i, j]),
+            ftok(cat.mx_x[i, j]), ftok(cat.mn_x[i, j])) for j in range(n)))
+    try:
+        with warnings.catch_warnings():
+            warnings.simplefilter("ignore")
+            sp = res.split()
+    except TypeError:
+        return reqs, ["type-error"] * len(reqs)
+    want = []
+    for i in range(spec["rows"]):
+        want.append(" , ".join("%s %s %s %s %s" % (k, ftok(v["cat"].ext[i, 0]), ftok(v["cat"].ext[i, 1]),
+                                                   ftok(v["cat"].ext_x[i, 0]), ftok(v["cat"].ext_x[i, 1]))
+                               for k, v in sp.items()))
+    return reqs, want
+
+
+_UFD = [1, 1, 1.25, 1.5, 0, 2, 0.5, None]
+
+
+def gen_ufdef(rng):
+    defaults = None if rng.random() < 0.25 else [rng.choice(_UFD) for _ in range(4)]
+    k = rng.random()
+    given = None if k < 0.25 else [rng.choice(_UFD + [None, None]) for _ in range(4)]
+    return {"kind": "ufdef", "defaults": defaults, "given": given}
+
+
+def ufdef_impl(spec):
+    from pyyeti import cla
+
+    dflt = dict(se=0)
+    if spec["defaults"] is not None:
+        dflt["uf_reds"] = tuple(spec["defaults"])
+    with warnings.catch_warnings():
+        warnings.simplefilter("ignore")
+        drdefs = cla.DR_Def(dflt)
+        drdefs.add(name="cat", desc="toy category", labels=2, drfunc="no-func",
+                   uf_reds=None if spec["given"] is None else tuple(spec["given"]))
+        DR = cla.DR_Event()
+        DR.add(None, drdefs)
+    return tuple(drdefs["cat"].uf_reds), list(DR.UF_reds)
+
+
+def _uftok(t):
+    return "-" if t is None else " ".join("none" if v is None else str(Fraction(v)) for v in t)
+
+
+def oracle_ufdef(spec):
+    try:
+        got, used = ufdef_impl(spec)
+    except Exception as e:
+        return [("drdef-add-uf-reds-raises-%s" % type(e).__name__, "DR_Def.add raises on a documented uf_reds form", spec,
+                 repr(e), "a 4-tuple")]
+    d = spec["defaults"] if spec["defaults"] is not None else [None] * 4
+    g = spec["given"] if spec["given"] is not None else [None] * 4
+    want = tuple(gv if gv is not None else (dv if dv is not None else 1) for dv, gv in zip(d, g))
+    fails = []
+    if tuple(got) != want:
+        only_none_entries = spec["given"] is not None and all(
+            a == b for a, b, gv in zip(got, want, g) if gv is not None) and all(
+            a == 1 for a, gv in zip(got, g) if gv is None)
+        fam = FIXED_F56 if only_none_entries else "drdef-add-uf-reds-wrong"
+        fails.append((fam, "DR_Def.add(uf_reds=%r) with defaults['uf_reds'] = %r stores %r; documented: None entries are "
+                      "reset to the corresponding entry of defaults (or 1 if that is None too): %r"
+                      % (spec["given"], spec["defaults"], got, want), spec, list(got), list(want)))
+    elif tuple(got) not in [tuple(u) for u in used]:
+        fails.append(("drdef-uf-reds-not-used-by-event", "DR_Event.UF_reds does not list the category's factors", spec,
+                      used, list(got)))
+    return fails
 
 
 # ---------------------------------------------------------------------------------------
@@ -1978,6 +2519,25 @@ def correspondence(ctx):
                     rq.append("statext %s ; %s ; %s" % (f2b(c["k"]), fbits(S[:, a, b]), fbits(S[:, a, b])))
         add("stat-ext", c, rq, None)
 
+    for spec in lab_specs(rng, ctx.pick(250, 1500)):
+        rq, want, branches, _, _ = labform_run(spec)
+        add("labform", spec, rq, (want, branches))
+    for _ in range(ctx.pick(400, 2500)):
+        m = gen_mergelists(rng)
+        add("mergelists", m, ["mergelists ; %s ; %s" % (" ".join(m["l1"]), " ".join(m["l2"]))], None)
+    for _ in range(ctx.pick(250, 1500)):
+        e = gen_event(rng, dup=False, srs=False)
+        n = len(e["labels"])
+        short = n > 2 and rng.random() < 0.15
+        res, DR, err = build_event(e, order=list(range(n - 1)) if short else None)
+        if err:
+            raise Infra("toy event refused: %s" % err)
+        rq, want = split_io(e, res, short)
+        add("split", dict(e, short=short), rq, want)
+    for _ in range(ctx.pick(300, 2000)):
+        u = gen_ufdef(rng)
+        add("ufdef", u, ["ufdef ; %s ; %s" % (_uftok(u["defaults"]), _uftok(u["given"]))], None)
+
     rep = drv.ask(reqs)
     ctx.extra["driver_requests"] = len(reqs)
     if any(r == "bad-op" for r in rep):
@@ -2168,6 +2728,46 @@ def correspondence(ctx):
             if got != payload:
                 bad = next(j for j in range(cnt) if got[j] != payload[j])
                 ctx.disagree(stream, spec, {"row": bad, "impl": payload[bad]}, {"row": bad, "model": got[bad]})
+        elif stream == "labform":
+            want, branches = payload
+            ctx.case(spec, nontrivial=any(b not in ("labels-identical", "labels-identical-repeated") and b.startswith("labels-")
+                                          for b in branches), branch="stream:labform")
+            for b in sorted(branches):
+                ctx.count("branch:" + b)
+            bad = labform_compare(spec, reqs[i0:i0 + cnt], want, got)
+            if bad is not None:
+                ctx.disagree("labform", spec, {k: v for k, v in bad.items() if k != "model"}, bad.get("model"))
+        elif stream == "split":
+            ctx.case(("split", spec), nontrivial=not spec["short"], branch="stream:split")
+            if spec["short"]:
+                ctx.count("branch:split-unfilled-column-refused")
+            if spec["js"] != sorted(spec["js"]):
+                ctx.count("branch:split-permuted-j")
+            if got != payload:
+                bad = next(j for j in range(cnt) if got[j] != payload[j])
+                ctx.disagree("split", spec, {"row": bad, "impl": payload[bad]}, {"row": bad, "model": got[bad]})
+        elif stream == "ufdef":
+            ctx.case(spec, nontrivial=spec["given"] is not None, branch="stream:ufdef")
+            if spec["given"] is not None and any(v is None for v in spec["given"]):
+                ctx.count("branch:ufdef-none-entry")
+            if spec["defaults"] is None:
+                ctx.count("branch:ufdef-no-defaults")
+            try:
+                impl = " ".join("%d/%d" % Fraction(v).as_integer_ratio() for v in ufdef_impl(spec)[0])
+            except Exception as e:
+                impl = "exception:" + type(e).__name__
+            if impl != got[0]:
+                ctx.disagree("ufdef", spec, impl, got[0])
+        elif stream == "mergelists":
+            from pyyeti import locate
+
+            ctx.case(spec, nontrivial=bool(spec["l1"] and spec["l2"]), branch="stream:mergelists")
+            if len(set(spec["l1"])) != len(spec["l1"]) or len(set(spec["l2"])) != len(spec["l2"]):
+                ctx.count("branch:mergelists-repeated-items")
+            m, pv1, pv2 = locate.merge_lists(list(spec["l1"]), list(spec["l2"]))
+            impl = "%s | %s | %s" % (" ".join(m), " ".join(map(str, pv1)), " ".join(map(str, pv2)))
+            if impl != got[0]:
+                ctx.disagree("mergelists", spec, impl, got[0])
         elif stream == "tree":
             want, bad_cases = payload
             depth, nstale, empty = tree_shape(spec["root"])
@@ -2245,6 +2845,14 @@ def correspondence(ctx):
         "branch:heap-form-label-lists-handed-in", "stream:psd-srs", "stream:psd-srs-env", "branch:psd-srs-eqsine",
         "branch:psd-srs-resp-time", "branch:psd-srs-with-apply-uf", "branch:psd-use-apply-uf", "branch:psd-use-apply-uf-rf",
         "branch:stat-ext-srs",
+        "stream:labform", "stream:mergelists", "branch:mergelists-repeated-items", "stream:split",
+        "branch:split-unfilled-column-refused", "branch:split-permuted-j", "stream:ufdef", "branch:ufdef-none-entry",
+        "branch:ufdef-no-defaults",
+        "branch:labels-identical", "branch:labels-permuted", "branch:labels-subset", "branch:labels-superset",
+        "branch:labels-superset-same-order", "branch:labels-disjoint", "branch:labels-overlap",
+        "branch:labels-identical-repeated", "branch:labels-repeated-refused", "branch:labels-add-maxmin-event-expanded",
+        "branch:labels-abscissa-some-events", "branch:labels-abscissa-some-events-with-merge",
+        "branch:labels-lower-level-envelope", "branch:labels-category-missing-in-some-event", "branch:labels-case-order",
     ])
 
 
@@ -2317,6 +2925,9 @@ def oracle_hist(h):
                  repr(e), "updated extrema")]
     ext, ext_x, mxc, mnc = snaps[-1]
     calls = h["calls"]
+    if ext_x is not None and ext_x.shape != ext.shape:
+        return [("extrema-%d-column-abscissa-table-shape" % cols, "ext_x has shape %s, ext has %s" % (ext_x.shape, ext.shape), h,
+                 list(ext_x.shape), list(ext.shape))]
     nanfirst = all(v is None for row in calls[0]["ext"] for v in row)
     tag = ("-nan-first-case" if nanfirst else "")
     for i in range(h["rows"]):
@@ -2350,16 +2961,23 @@ def oracle_hist(h):
                 fails.append(("extrema-%d-column-%s-label-not-attaining%s" % (cols, which, tag),
                               "row %d: %s label %r names no case attaining %r (labels %r, values %r)" % (
                                   i, which, lab, got, labs, vals), h, lab, [labs[k] for k in attain]))
-            elif spec_mixedx(h):
-                pass  # abscissae given by some calls only: outside the assumption under which ext_x is meaningful
-            elif calls[0]["ext_x"] is not None:
-                gx = float(ext_x[i, col])
-                if not any(labs[k] == lab and _same(xs[k], gx) for k in attain):
-                    fails.append(("extrema-%d-column-%s-abscissa-not-attaining%s" % (cols, which, tag),
-                                  "row %d: %s abscissa %r is not that of attaining case %r" % (i, which, gx, lab),
-                                  h, gx, [xs[k] for k in attain]))
-            elif ext_x is not None:
-                fails.append(("extrema-abscissa-invented", "ext_x appeared although no case supplied one", h, "array", None))
+            elif all(c["ext_x"] is None for c in calls):
+                if ext_x is not None:
+                    fails.append(("extrema-abscissa-invented", "ext_x appeared although no case supplied one", h, "array", None))
+            elif all(c["ext_x"] is not None for c in calls) and ext_x is None:
+                fails.append(("extrema-abscissa-lost", "ext_x is None although every case supplied one", h, None, "array"))
+            else:
+                # the abscissa is that of the governing case -- NaN when that case came without x-values
+                gx = NAN if ext_x is None else float(ext_x[i, col])
+                gov = [k for k in attain if labs[k] == lab]
+                if not any(_same(xs[k], gx) for k in gov):
+                    if all(calls[k]["ext_x"] is None for k in gov):
+                        fails.append((FIXED_F57, "cla.extrema row %d: the %s is governed by case %r, which came without x-values, but "
+                                      "the abscissa reported is %r (another case's)" % (i, which, lab, gx), h, gx, NAN))
+                    else:
+                        fails.append(("extrema-%d-column-%s-abscissa-not-attaining%s" % (cols, which, tag),
+                                      "row %d: %s abscissa %r is not that of attaining case %r" % (i, which, gx, lab),
+                                      h, gx, [xs[k] for k in gov]))
     # what was handed in is still what it was (no aliasing between the accumulator and its inputs)
     for n_in, (c, mm, mxc, mnc) in enumerate(cur.inputs):
         if not np.array_equal(mm.ext, arr(c["ext"]), equal_nan=True) or \
@@ -2492,6 +3110,37 @@ def oracle_event(spec):
             if not np.array_equal(env, cat.srs.ext[q], equal_nan=True):
                 fails.append(("dr-%s-srs-envelope" % dom, "srs.ext[%s] is not the maximum over the cases" % q, spec,
                               cat.srs.ext[q].tolist(), env.tolist()))
+    # split(): every case gets its own columns, named with its own label (label list indexed by case number)
+    if not fails:
+        try:
+            with warnings.catch_warnings():
+                warnings.simplefilter("ignore")
+                sp = copy.deepcopy(res).split()
+        except Exception as e:
+            sp = None
+            fails.append(("dr-%s-split-raises-%s" % (dom, type(e).__name__), "split() raises on a completed event", spec, repr(e), None))
+        if sp is not None:
+            if list(sp.keys()) != want_cases:
+                fails.append(("dr-%s-split-keys" % dom, "split() keys are not the cases in case-number order", spec,
+                              list(sp.keys()), want_cases))
+            else:
+                for k in range(n):
+                    c = sp[spec["labels"][k]]["cat"]
+                    wm = [[_fmax(R[k][i].tolist()), (-_fmax(R[k][i].tolist()) if dom == "frf" else _fmin(R[k][i].tolist()))]
+                          for i in range(spec["rows"])]
+                    ok = list(c.cases) == [spec["labels"][k]] and all(
+                        _same(float(c.ext[i, col]), wm[i][col]) and _same(float(c.mx[i, 0]), wm[i][0])
+                        and _same(float(c.mn[i, 0]), wm[i][1]) for i in range(spec["rows"]) for col in (0, 1))
+                    name = "hist" if dom == "time" else "frf"
+                    if ok and spec["histpv"] is not None and dom == "time":
+                        pv = slice(None) if spec["histpv"] == "all" else [0]
+                        h = getattr(c, name)
+                        ok = h.shape[0] == 1 and np.array_equal(h[0], event_resp(spec, k)[pv], equal_nan=True)
+                    if not ok:
+                        fails.append(("dr-%s-split-case-holds-another-cases-data" % dom, "split()[%r] does not hold the extremes / "
+                                      "history of the case recovered under that label (case number %d)"
+                                      % (spec["labels"][k], spec["js"][k]), spec, [c.ext.tolist(), list(c.cases)], wm))
+                        break
     # calc_ext recomputes the same extreme values from the per-case columns
     if not fails:
         rc = copy.deepcopy(res)
@@ -3038,9 +3687,300 @@ def oracle_tree(spec):
     return fails
 
 
+def _lab_base_ref(b, drm):
+    """what a base event's category must hold, by row, straight from the spec:
+    rows of (max, min, {(lower label, x) attaining the max}, {... the min}); None when the event has no such category"""
+    if b["type"] == "addmm":
+        if drm != "cat":
+            return None
+        r = len(b["labels"])
+        mxc = [b["maxcase"]] * r if isinstance(b["maxcase"], str) else list(b["maxcase"])
+        mnc = mxc if b["mincase"] is None else ([b["mincase"]] * r if isinstance(b["mincase"], str) else list(b["mincase"]))
+        rows = []
+        for i in range(r):
+            mx, mn = [NAN if v is None else v for v in b["mxmn"][i]]
+            x = b["xv"][i] if b["xv"] is not None else [NAN, NAN]
+            rows.append((mx, mn, {(mxc[i], x[0])}, {(mnc[i], x[1])}))
+        return {"labels": list(b["labels"]), "hasx": b["xv"] is not None, "rows": rows}
+    labels = b["labels"] if drm == "cat" else b["labels2"]
+    if not labels:
+        return None
+    nrows = len(b["resp"][0])
+    rows = []
+    for i in range(len(labels)):
+        src, sgn = (i, 1.0) if drm == "cat" else (nrows - 1 - i, -1.0)
+        best = {}
+        for which, pick in (("max", max), ("min", min)):
+            per = [[sgn * v for v in c[src]] for c in b["resp"]]
+            ext = pick(pick(p) for p in per)
+            att = {("%s-%d" % (b["name"], j), t * 0.01) for j, p in enumerate(per) for t, v in enumerate(p) if v == ext}
+            best[which] = (ext, att)
+        rows.append((best["max"][0], best["min"][0], best["max"][1], best["min"][1]))
+    return {"labels": list(labels), "hasx": True, "rows": rows}
+
+
+def _lab_nodes(spec):
+    out = {}
+
+    def walk(node, path):
+        out[path + (node["name"],)] = node
+        if node["type"] == "group":
+            for k in node["kids"]:
+                walk(k, path + (node["name"],))
+
+    for m in spec["members"]:
+        walk(m, ())
+    return out
+
+
+def oracle_labform(spec):
+    fails = []
+    d = spec["d"]
+    nodes = _lab_nodes(spec)
+    # 1. the parts themselves, before anything is formed
+    from pyyeti import cla
+
+    def mk(node):
+        if node["type"] != "group":
+            return _lab_build_base(node)
+        g = cla.DR_Results()
+        for kid in node["kids"]:
+            g[kid["name"]] = mk(kid)
+        return g
+
+    with warnings.catch_warnings():
+        warnings.simplefilter("ignore")
+        top = cla.DR_Results()
+        for m in spec["members"]:
+            top[m["name"]] = mk(m)
+    before = {}
+    for path, res in _walk(top):
+        if _is_base(res):
+            b = nodes[path]
+            for drm, c in res.items():
+                before[path + (drm,)] = _snapshot(c)
+                ref = _lab_base_ref(b, drm)
+                ok = ref is not None and list(c.drminfo.labels) == ref["labels"] and (c.ext_x is not None) == ref["hasx"]
+                if ok:
+                    for i, (mx, mn, amx, amn) in enumerate(ref["rows"]):
+                        gx = (NAN, NAN) if c.ext_x is None else (float(c.ext_x[i, 0]), float(c.ext_x[i, 1]))
+                        ok = ok and _same(float(c.ext[i, 0]), mx) and _same(float(c.ext[i, 1]), mn) and \
+                            any(c.maxcase[i] == l and _same(gx[0], x) for l, x in amx) and \
+                            any(c.mincase[i] == l and _same(gx[1], x) for l, x in amn)
+                if not ok:
+                    fails.append(("labels-event-table-%s" % b["type"], "event %s: category %s does not hold the extremes of its "
+                                  "rows (label by label)" % ("/".join(path), drm), spec,
+                                  [list(c.drminfo.labels), c.ext.tolist(), c.maxcase, c.mincase], ref and ref["labels"]))
+                    return fails
+    # 2. what must happen: ValueError exactly when two differing label lists meet and one repeats a label
+    with warnings.catch_warnings():
+        warnings.simplefilter("ignore")
+        try:
+            top.form_extreme("Envelope", case_order=spec["case_order"], doappend=d)
+            exc = None
+        except (ValueError, KeyError) as e:
+            exc = type(e).__name__
+    levels = lab_levels(top, spec["case_order"])
+    must_raise = False
+    for path, dct, cases in levels:
+        cats = []
+        for case in cases:
+            m = dct[case]
+            cur = m["extreme"] if "extreme" in m else m
+            cats += [c for c in cur if c not in cats]
+        for drm in cats:
+            kinds = _lab_step_kinds(_lab_parts(dct, cases, drm), as_coded=False)
+            if "repeated-refused" in kinds:
+                must_raise = True
+        if "extreme" not in dct:
+            break
+    if exc == "ValueError" and must_raise:
+        return fails
+    if exc == "KeyError":
+        fails.append((FIXED_F58,
+                      "form_extreme raises KeyError('mx') when an event made by add_maxmin lists other rows than the events "
+                      "before it (_expand looks up mx / mn / mx_x / mn_x, which such an event does not have)", spec, exc,
+                      "the envelope by label"))
+        return fails
+    if exc is not None or must_raise:
+        fails.append(("form-extreme-repeated-row-labels-accepted" if exc is None else "form-extreme-differing-rows-raises-" + exc,
+                      "differing label lists with a repeated label must be refused with ValueError, all others accepted",
+                      spec, exc, "ValueError" if must_raise else None))
+        return fails
+    # 3. the parts are bit-identical afterwards
+    for path, res in _walk(top):
+        if _is_base(res) and "extreme" not in path:
+            for drm, c in res.items():
+                bad = _snap_diff(before[path + (drm,)], c)
+                if bad is not None or list(c.drminfo.labels) != list(nodes[path]["labels" if drm == "cat" else "labels2"]):
+                    fails.append(("form-extreme-differing-rows-modifies-part-%s" % (bad or "labels").replace(".", "-"),
+                                  "after form_extreme, `%s` of %s is no longer what the event's own recovery left there"
+                                  % (bad or "drminfo.labels", "/".join(path + (drm,))), spec, None, None))
+                    return fails
+    # 4. every level: by label, the envelope of the members that carry the label
+    try:
+        fails += _lab_levels_check(spec, levels, d)
+    except (IndexError, ValueError, TypeError, AttributeError, KeyError) as e:
+        fails.append(("form-extreme-by-label-malformed-table", "the tables of an envelope do not fit its row labels / cases (%s: %s)"
+                      % (type(e).__name__, str(e)[:150]), spec, type(e).__name__, "tables with one row per label"))
+    if fails:
+        return fails
+    return fails + _lab_order_check(spec, top)
+
+
+def _lab_levels_check(spec, levels, d):
+    fails = []
+    for path, dct, cases in levels:
+        where = "/".join(path) or "Top"
+        ext_all = dct["extreme"]
+        for drm, ext in ext_all.items():
+            parts = _lab_parts(dct, cases, drm)
+            labs = list(ext.drminfo.labels)
+            union = []
+            for _, _, _, c in parts:
+                union += [l for l in c.drminfo.labels if l not in union]
+            uniq = all(len(set(c.drminfo.labels)) == len(c.drminfo.labels) for _, _, _, c in parts)
+            if not uniq:
+                continue  # identical lists with a repeated label: positional, the other streams' subject
+            if sorted(labs) != sorted(union):
+                fails.append(("form-extreme-by-label-row-set", "%s/%s: the rows of the envelope are not the union of the members' "
+                              "rows, each once" % (where, drm), spec, labs, union))
+                return fails
+            want_order = list(parts[0][3].drminfo.labels)
+            for _, _, _, c in parts[1:]:
+                want_order = _ref_merge(want_order, list(c.drminfo.labels))
+            if labs != want_order:
+                fails.append(("form-extreme-by-label-row-order", "%s/%s: the order of the rows is not the documented merge (first "
+                              "event's order kept, new rows in front of the next common row)" % (where, drm), spec, labs, want_order))
+                return fails
+            if list(ext.cases) != list(cases):
+                fails.append(("form-extreme-by-label-cases", "%s/%s: cases" % (where, drm), spec, list(ext.cases), list(cases)))
+                return fails
+            anyx = [c.ext_x is not None for _, _, _, c in parts]
+            if not any(anyx) and ext.ext_x is not None:
+                fails.append(("form-extreme-by-label-abscissa-invented", "%s/%s: ext_x appeared although no member has one"
+                              % (where, drm), spec, "array", None))
+                return fails
+            if all(anyx) and ext.ext_x is None:
+                fails.append(("form-extreme-by-label-abscissa-lost", "%s/%s: ext_x is None although every member has one"
+                              % (where, drm), spec, None, "array"))
+                return fails
+            for i, lbl in enumerate(labs):
+                have = [(j, case, u, c, list(c.drminfo.labels).index(lbl)) for j, case, u, c in parts if lbl in c.drminfo.labels]
+                for col, pick, which in ((0, _fmax, "max"), (1, _fmin, "min")):
+                    vals = [float(c.ext[r, col]) for _, _, _, c, r in have]
+                    want = pick(vals)
+                    got = float(ext.ext[i, col])
+                    if not _same(got, want):
+                        fails.append(("form-extreme-by-label-wrong-" + which, "%s/%s row %r: %s %r is not the %s over the members "
+                                      "that carry the row (%r)" % (where, drm, lbl, which, got, which, vals), spec, got, want))
+                        return fails
+                    if want != want:
+                        continue
+                    lab = (ext.maxcase if col == 0 else ext.mincase)[i]
+                    gov = []
+                    for (j, case, u, c, r), v in zip(have, vals):
+                        if not _same(v, want):
+                            continue
+                        low = (c.maxcase if col == 0 else c.mincase)[r]
+                        dd = 1 if (u and d == 2) else d
+                        if lab == (case + "," + low if dd == 1 else (low if dd == 3 else case)):
+                            gov.append((c, r))
+                    if not gov:
+                        fails.append(("form-extreme-by-label-label-doappend-%d" % d, "%s/%s row %r: the %s label %r names no member "
+                                      "attaining %r" % (where, drm, lbl, which, lab, want), spec, lab, [case for _, case, _, _, _ in have]))
+                        return fails
+                    gx = NAN if ext.ext_x is None else float(ext.ext_x[i, col])
+                    okx = any(_same(gx, NAN if c.ext_x is None else float(c.ext_x[r, col])) for c, r in gov)
+                    if not okx:
+                        if all(c.ext_x is None for c, r in gov):
+                            fails.append((FIXED_F57,
+                                          "%s/%s row %r: the %s is governed by %r, which has no abscissae, but the envelope reports "
+                                          "the abscissa %r (taken from another member: _put_time copies that member's whole ext_x "
+                                          "when the envelope has none yet)" % (where, drm, lbl, which, lab, gx), spec, gx, NAN))
+                        else:
+                            fails.append(("form-extreme-by-label-abscissa", "%s/%s row %r: the %s abscissa %r is not that of the "
+                                          "governing member %r" % (where, drm, lbl, which, gx, lab), spec, gx,
+                                          [None if c.ext_x is None else float(c.ext_x[r, col]) for c, r in gov]))
+                        return fails
+                # per-case columns, in case order, NaN for the members without the row
+                for j, case in enumerate(cases):
+                    hit = [(c, r) for jj, _, _, c, r in have if jj == j]
+                    want4 = [NAN] * 4
+                    if hit:
+                        c, r = hit[0]
+                        want4 = [float(c.ext[r, 0]), float(c.ext[r, 1]),
+                                 NAN if c.ext_x is None else float(c.ext_x[r, 0]), NAN if c.ext_x is None else float(c.ext_x[r, 1])]
+                    got4 = [float(ext.mx[i, j]), float(ext.mn[i, j]), float(ext.mx_x[i, j]), float(ext.mn_x[i, j])]
+                    if not all(_same(a, b) for a, b in zip(got4, want4)):
+                        fails.append(("form-extreme-by-label-per-case-column", "%s/%s row %r column %d (%s): mx, mn, mx_x, mn_x"
+                                      % (where, drm, lbl, j, case), spec, got4, want4))
+                        return fails
+    return fails
+
+
+def _lab_order_check(spec, top):
+    """values by label do not depend on the order of the events"""
+    fails = []
+    if spec["case_order"] is None and len(spec["members"]) > 1:
+        top2, exc2 = build_labform(spec, order=list(range(len(spec["members"])))[::-1])
+        if exc2 == "KeyError":
+            fails.append((FIXED_F58,
+                          "form_extreme raises KeyError('mx') when the same events are given in reverse order (an event made by "
+                          "add_maxmin then comes after events that list other rows)", spec, exc2, "the envelope by label"))
+        elif exc2 is not None:
+            fails.append(("form-extreme-by-label-order-dependent-refusal", "the reversed event order is refused", spec, exc2, None))
+        else:
+            for drm, ext in top["extreme"].items():
+                e2 = top2["extreme"][drm]
+                if len(set(ext.drminfo.labels)) != len(ext.drminfo.labels):
+                    continue
+                a = {l: [float(v) for v in ext.ext[i]] for i, l in enumerate(ext.drminfo.labels)}
+                b = {l: [float(v) for v in e2.ext[i]] for i, l in enumerate(e2.drminfo.labels)}
+                if set(a) != set(b) or any(not (_same(a[l][0], b[l][0]) and _same(a[l][1], b[l][1])) for l in a):
+                    fails.append(("form-extreme-by-label-order-dependent-values", "%s: the extreme values of a row change when the "
+                                  "events are given in reverse order" % drm, spec, b, a))
+                    break
+    return fails
+
+
+def gen_mergelists(rng):
+    pool = ["a", "b", "c", "d", "e", "f", "g"]
+    k = rng.random()
+    n1, n2 = rng.randint(0, 5), rng.randint(0, 5)
+    if k < 0.7:
+        l1, l2 = rng.sample(pool, n1), rng.sample(pool, n2)
+    else:
+        l1 = [rng.choice(pool[:4]) for _ in range(n1)]
+        l2 = [rng.choice(pool[:4]) for _ in range(n2)]
+    return {"kind": "mergelists", "l1": l1, "l2": l2}
+
+
+def oracle_mergelists(spec):
+    from pyyeti import locate
+
+    l1, l2 = list(spec["l1"]), list(spec["l2"])
+    m, pv1, pv2 = locate.merge_lists(list(l1), list(l2))
+    fails = []
+    if [m[i] for i in pv1] != l1 or [m[i] for i in pv2] != l2:
+        fails.append(("merge-lists-index-maps", "list1 = [mlist[i] for i in pv1] and list2 = [mlist[i] for i in pv2]", spec,
+                      [m, pv1, pv2], [l1, l2]))
+    elif set(m) != set(l1) | set(l2) or (len(set(l1)) == len(l1) and len(set(l2)) == len(l2) and len(set(m)) != len(m)):
+        fails.append(("merge-lists-items", "the merged list holds the items of both lists, each once when neither repeats one",
+                      spec, m, sorted(set(l1) | set(l2))))
+    elif len(set(l1)) == len(l1) and len(set(l2)) == len(l2):
+        if [x for x in m if x in l1] != l1:
+            fails.append(("merge-lists-order-of-list1", "the order of list1 is maintained", spec, m, l1))
+        elif m != _ref_merge(l1, l2):
+            fails.append(("merge-lists-position-of-new-items", "a new item of list2 goes in front of the next common item (or to "
+                          "the end)", spec, m, _ref_merge(l1, l2)))
+    return fails
+
+
 _ORACLES = {"ext1": oracle_hist, "ext2": oracle_hist, "mm": oracle_mm, "event": oracle_event,
             "form": oracle_form, "uf": oracle_uf, "psd": oracle_psd, "merge": oracle_merge, "calc": oracle_calc,
-            "stat": oracle_calc, "addmm": oracle_addmm, "tree": oracle_tree}
+            "stat": oracle_calc, "addmm": oracle_addmm, "tree": oracle_tree, "labform": oracle_labform,
+            "mergelists": oracle_mergelists, "ufdef": oracle_ufdef}
 
 
 def _run_oracle(ctx, spec):
@@ -3087,6 +4027,12 @@ def search(ctx, hints):
         _run_oracle(ctx, gen_tree(rng))
     for _ in range(ctx.pick(150, 1000)):
         _run_oracle(ctx, gen_heap_hist(rng))
+    for spec in lab_specs(rng, ctx.pick(150, 900)):
+        _run_oracle(ctx, spec)
+    for _ in range(ctx.pick(300, 2000)):
+        _run_oracle(ctx, gen_mergelists(rng))
+    for _ in range(ctx.pick(200, 1200)):
+        _run_oracle(ctx, gen_ufdef(rng))
 
 
 def replay(ctx, data):
